@@ -6,27 +6,39 @@ import Chihaya.Driver.DApproval
 import Chihaya.Driver.DHttpParse
 import Chihaya.Driver.DUdp
 import Chihaya.Driver.DHttpWrite
+import Chihaya.Driver.DStore
 open Proto
 
-def dispatch (l : Line) : String :=
-  let hs : List (Line → Option (Except String String)) := [DBencode.handle, DVarInterval.handle', DConfig.handle, DApproval.handle, DHttpParse.handle, DUdp.handle, DHttpWrite.handle]
-  let r : Option (Except String String) := hs.findSome? (fun h => h l)
-  match r with
-  | some (Except.ok s) => s
-  | some (Except.error e) => "bad-op " ++ e
-  | none => "bad-op unknown " ++ l.op
+structure DState where
+  store : DStore.DState := {}
 
-partial def loop (h : IO.FS.Stream) (out : IO.FS.Stream) : IO Unit := do
+def statelessHandlers : List (Line → Option (Except String String)) :=
+  [DBencode.handle, DVarInterval.handle', DConfig.handle, DApproval.handle, DHttpParse.handle, DUdp.handle, DHttpWrite.handle]
+
+def dispatch (st : DState) (l : Line) : DState × String :=
+  match DStore.handle st.store l with
+  | some (s', r) =>
+    ({ st with store := s' }, match r with | .ok s => s | .error e => "bad-op " ++ e)
+  | none =>
+    let r : Option (Except String String) := statelessHandlers.findSome? (fun h => h l)
+    (st, match r with
+      | some (Except.ok s) => s
+      | some (Except.error e) => "bad-op " ++ e
+      | none => "bad-op unknown " ++ l.op)
+
+partial def loop (h : IO.FS.Stream) (out : IO.FS.Stream) (st : DState) : IO Unit := do
   let line ← h.getLine
   if line.isEmpty then return ()
   let t := line.trimAscii.toString
   if t.isEmpty || t.startsWith "#" then
     out.putStrLn ""
+    loop h out st
   else
-    out.putStrLn (dispatch (parseLine t))
-  loop h out
+    let (st', s) := dispatch st (parseLine t)
+    out.putStrLn s
+    loop h out st'
 
 def main : IO Unit := do
   let out ← IO.getStdout
-  loop (← IO.getStdin) out
+  loop (← IO.getStdin) out {}
   out.flush
